@@ -1,31 +1,27 @@
 #!/usr/bin/python3
 """Print the markdown table of seeded changes (DESIGN.md 9.6) from seeded/*/meta.json."""
 import json, os, re
-# rule (key prefix) -> batch after which it was written or repaired in response to a miss
-RESPONSE = [
-    ("R-FFI-N5", 1), ("R-LOCK:K5", 1), ("R-LOCK-K5", 1), ("R-LOOP:<haystack::filter::nodes::WildcardEq", 1), ("R-LOOP:haystack::defs::namespace::Namespace::has_relationship", 1),
-    ("R-WRITEALL", 2), ("T-NEST:element", 2), ("T-CELL", 2), ("T-TZGUARD", 2), ("T-OFFSET", 2), ("T-KEEP:member-loop", 2),
-    ("T-ORDER:member-loop", 2), ("R-CAST:intcast", 2), ("R-EQ:Coord:Q1b", 2), ("R-EQ:DateTime:Q2b", 2), ("R-EQ:Dict:Q4", 2),
-    ("R-REC:depth-counter-balanced", 2), ("T-SEP:display-separator", 2), ("T-SPELL:whitespace", 2), ("T-SPEC:scanner-class", 2),
-    ("T-SPEC:class", 2), ("T-RESOLVE", 2), ("T-COLUMNS", 2), ("T-VERBATIM", 2), ("R-FLAG", 2), ("R-ERR:haystack_value_set_list_entry_at:index-guard", 2),
-    ("R-ERR:haystack_value_make_number_with_unit:swallows", 2),
-]
 root = os.path.join(os.path.dirname(os.path.abspath(__file__)), "..", "seeded")
 def sk(n):
     m = re.match(r"C(\d+)-(\d+)", n)
     return (int(m.group(1)), int(m.group(2)))
-print("| seed | change | reported as | rule existed when the change was written |")
-print("|------|--------|-------------|------------------------------------------|")
-for n in sorted(os.listdir(root), key=sk):
+rows = []
+for n in sorted((x for x in os.listdir(root) if os.path.isdir(os.path.join(root, x))), key=sk):
     m = json.load(open(os.path.join(root, n, "meta.json")))
     keys = m["check_result"]["violation_keys"]
-    k0 = keys[0] if keys else "MISSED"
-    first = "yes"
-    for pre, b in RESPONSE:
-        if k0.startswith(pre):
-            first = "no (written after batch %d)" % b
-    batch = m.get("batch")
+    k0 = keys[0] if keys else "NOT REPORTED"
+    fp = m.get("first_pass", {}).get("detected")
     what = (m.get("what") or "").replace("|", "/").replace("\n", " ")
     if len(what) > 150:
         what = what[:147] + "..."
-    print("| %s | %s | `%s` | %s |" % (n, what, k0 if len(k0) < 110 else k0[:107] + "...", first))
+    rows.append((n, m.get("batch", "?"), what, k0 if len(k0) < 110 else k0[:107] + "...", "yes" if fp else ("no" if fp is not None else "?")))
+if __name__ == "__main__":
+    print("| seed | batch | change | reported as | reported by the rules as they stood when it arrived |")
+    print("|------|-------|--------|-------------|------------------------------------------------------|")
+    for r in rows:
+        print("| %s | %s | %s | `%s` | %s |" % r)
+    import collections
+    c = collections.Counter((r[1], r[4]) for r in rows)
+    tot = collections.Counter(r[1] for r in rows)
+    print()
+    print("First-pass totals: " + "; ".join("batch %s: %d of %d" % (b, c[(b, "yes")], tot[b]) for b in sorted(tot)) + "; now reported: %d of %d." % (sum(1 for r in rows if r[3] != "NOT REPORTED"), len(rows)))
